@@ -291,3 +291,18 @@ Proof. exists (NUint two63z). split; [constructor|reflexivity]. Qed.
 
 Lemma deep_equal_uint_refuted : exists n, wf n /\ deep_equal pinned n n = RPanic.
 Proof. exists (NUint two63z). split; [constructor|reflexivity]. Qed.
+
+(* ------------------------------------------------------------------ the settled tree *)
+(* Copy of an int node above MaxInt64 fails, for every builder, and that is the only failure *)
+Lemma copy_uint_fails : forall p z, (two63z <= z)%Z -> copy settled p (NUint z) = RErr EOther.
+Proof.
+  intros p z Hz. unfold copy, copy_script. simpl.
+  destruct (z <? two63z)%Z eqn:E; [apply Z.ltb_lt in E; lia|reflexivity].
+Qed.
+
+Lemma settled_equal : forall x y, deep_equal settled x y = ROk (dm_goeq (abs x) (abs y)).
+Proof. intros. apply deep_equal_spec. left. reflexivity. Qed.
+
+Lemma settled_copy : forall n, wf n -> (forall z, n = NUint z -> (z < two63z)%Z) ->
+  exists n', copy settled PAny n = ROk n' /\ abs n' = abs n /\ wf n'.
+Proof. intros n Hw Hu. apply copy_any; auto. Qed.
